@@ -1,5 +1,5 @@
 """C08 - workers answer each command exactly once (terminal status), routing table vs handlers."""
-import engine, lib
+import engine, lib, guards
 from engine import Engine, Spec
 from mir import callee_of, op_place, pl_local
 from facts import Broken
@@ -209,6 +209,7 @@ def run(F, chk):
         if n.startswith("BROKEN"):
             ra.broke(n)
     upsert_rule(F, chk)
+    requeue_rule(F, chk)
     # ---------------- R-C08-d routing table vs handlers --------------------
     rd = chk.rule("R-C08-d", "T7b", "every variant get_destinations routes to a proxy has an explicit arm there", floor=20)
     gd = F.body("sozu_command_lib::request::<impl sozu_command_lib::proto::command::Request>::get_destinations")
@@ -431,3 +432,44 @@ def worker_receivable(F, chk):
             recv.setdefault(V, set()).add("client verb passed through " + "/".join(sorted(x.split("::")[-1] for x in passthrough)))
     chk.extra["C08_receivable_why"] = {k: sorted(v)[:3] for k, v in sorted(recv.items())}
     return set(recv)
+
+
+def requeue_rule(F, chk):
+    """R-C08-g: a response that was queued is an answer the main process is waiting for.  Wherever the worker takes one off
+    the queue (VecDeque::pop_front) and hands it to Channel::write_message, the Err edge of that write (frame does not fit
+    the back buffer right now) must put it back (push_front / push_back) before the next pop or the return - otherwise a
+    command that was received and processed gets no final answer under back-pressure."""
+    r = chk.rule("R-C08-g", "T3", "a queued response leaves the queue only by being written", floor=1)
+    WM = "sozu_command_lib::channel::Channel::<Tx, Rx>::write_message"
+    n = 0
+    for b in F.grep("VecDeque::<T, A>::pop_front", "write_message"):
+        if not (b.path.startswith("sozu_lib::") or b.path.startswith("<sozu_lib::")):
+            continue
+        pops = [(bi, t) for bi, t in b.calls() if callee_of(t).endswith("VecDeque::<T, A>::pop_front")]
+        writes = [(bi, t) for bi, t in b.calls() if t.get("fn") == WM or callee_of(t) == WM]
+        if not pops or not writes:
+            continue
+        # the written value must be the popped one
+        popped = {t["dest"] for _, t in pops if isinstance(t.get("dest"), int)}
+        for wi, wt in writes:
+            sl = guards.slice_of_operand(b, wt["args"][-1])
+            if not (sl["locals"] & popped):
+                continue
+            n += 1
+            r.fn(b.path)
+            key = "%s|requeue on failed write#%d" % (b.path, n - 1)
+            err_targets = []
+            import C17
+            for sb, tg, el in C17.discr_switches(b, wt["dest"]):
+                err_targets.append(tg.get(1, el))
+            if not err_targets:
+                r.violation(key, b.where(wi), "the result of write_message is not inspected: a response the channel refuses is dropped")
+                continue
+            pushes = [bi for bi, t in b.calls() if callee_of(t).endswith(("VecDeque::<T, A>::push_front", "VecDeque::<T, A>::push_back"))]
+            cut = b.reach_from(err_targets, removed=pushes)
+            lost = [x for x, _ in pops if x in cut] + [x for x in b.returns() if x in cut]
+            if lost:
+                r.violation(key, b.where(wi), "on the Err edge of channel.write_message the popped response is not put back into the queue before the next pop / the return: under back-pressure an answered command loses its final status")
+            else:
+                r.ok(key, b.where(wi), "Err edge of write_message re-queues the response (push_front/push_back) on every path")
+    r.require(n >= 1, "no pop_front -> write_message site found in sozu_lib")
